@@ -61,6 +61,22 @@ def _expand(payload, sub):
                 sc['steps'] = trial['steps']
             except Exception:  # noqa
                 pass
+    # motif: a join that keeps its source, followed by an in-place edit of the cells it aggregated
+    if rng.random() < 0.15:
+        try:
+            d = ST.D(PL.describe(sc, {'calls': {}}))
+            j = ST.gen_join(rng, d, ST.G())
+        except Exception:  # noqa
+            j = None
+        if j:
+            j['source_delete'] = False
+            j['fields'] = {'jm%d' % i: v for i, (k, v) in enumerate(sorted(j['fields'].items()))}
+            trial = dict(sc, steps=sc['steps'] + [j, {'step': 'bump', 'by': 1000000}])
+            try:
+                PL.describe(trial, {'calls': {}})
+                sc['steps'] = trial['steps']
+            except Exception:  # noqa
+                pass
     sc['source_kinds'] = [rng.choice(['list', 'list', 'gen', 'iter']) for _ in tables]
     if rng.random() < payload.get('bad_p', 0.10):
         sc['steps'].insert(rng.randrange(len(sc['steps']) + 1), {'step': 'bad_link', 'kind': rng.choice(ST.BAD_LINKS)})
